@@ -10,9 +10,9 @@ use hcommon::templates::{run_template, EvalKind, HProblem, Outcome, Visitor};
 use hcommon::*;
 use mahf::components::mapping::Linear;
 use mahf::components::swarm::pso::*;
-use mahf::identifier::Global;
+use mahf::identifier::{Global, Identifier, A};
 use mahf::lens::ValueOf;
-use mahf::state::common::{Iterations, Populations, Progress};
+use mahf::state::common::{BestIndividual, Evaluations, Iterations, Populations, Progress};
 use mahf::verif::Phase;
 use mahf::{Component, Individual, Random, SingleObjective, State};
 use script::*;
@@ -69,6 +69,14 @@ struct Prepared {
 }
 /// Builds a state from whatever of `(xs ..) (vs ..) (pbest ..) (gbest ..) (w ..)` the input has.
 fn prepare(args: &[Sx]) -> Prepared {
+    prepare_id::<Global>(args)
+}
+fn is_global<I: Identifier>() -> bool {
+    std::any::TypeId::of::<I>() == std::any::TypeId::of::<Global>()
+}
+/// The swarm state is keyed by the identifier `I`. For `I != Global` the state additionally holds DECOY swarm
+/// state under `Global` (other sizes, other values) which components with identifier `I` must neither read nor write.
+fn prepare_id<I: Identifier>(args: &[Sx]) -> Prepared {
     let fb = if has_field(args, "fb") { field(args, "fb")[0].nat().unwrap() } else { 0 };
     let words: Vec<u64> = if has_field(args, "words") { field(args, "words").iter().map(|w| w.nat().unwrap()).collect() } else { vec![] };
     let (id, script) = register(words.clone(), fb);
@@ -78,30 +86,69 @@ fn prepare(args: &[Sx]) -> Prepared {
     if has_field(args, "xs") {
         state.populations_mut().push(field(args, "xs").iter().map(part_of::<P>).collect());
     }
+    if !is_global::<I>() {
+        state.insert(ParticleVelocities::<Global>::new(vec![vec![0.25], vec![-0.25], vec![0.5]]));
+        state.insert(BestParticles::<P, Global>::new(vec![decoy()]));
+        state.insert(BestParticle::<P, Global>::new(Some(decoy())));
+        state.insert(InertiaWeight::<Pvu>::new(77.0));
+    }
     if has_field(args, "vs") {
-        state.insert(ParticleVelocities::<Global>::new(field(args, "vs").iter().map(floats).collect()));
+        state.insert(ParticleVelocities::<I>::new(field(args, "vs").iter().map(floats).collect()));
     }
     if has_field(args, "pbest") {
-        state.insert(BestParticles::<P, Global>::new(field(args, "pbest").iter().map(part_of::<P>).collect()));
+        state.insert(BestParticles::<P, I>::new(field(args, "pbest").iter().map(part_of::<P>).collect()));
     }
     if has_field(args, "gbest") {
         let g = &field(args, "gbest")[0];
-        state.insert(BestParticle::<P, Global>::new(if g.atom() == Some("none") { None } else { Some(part_of::<P>(g)) }));
+        state.insert(BestParticle::<P, I>::new(if g.atom() == Some("none") { None } else { Some(part_of::<P>(g)) }));
     }
     if has_field(args, "w") {
-        state.insert(InertiaWeight::<Pvu>::new(f1(args, "w")));
+        state.insert(InertiaWeight::<ParticleVelocitiesUpdate<I>>::new(f1(args, "w")));
+    }
+    // `common::BestIndividual` (the best solution of the whole heuristic, not of the swarm): the swarm
+    // components must not look at it
+    if has_field(args, "bestind") {
+        let g = &field(args, "bestind")[0];
+        let mut bi = BestIndividual::<P>::new();
+        if g.atom() != Some("none") { *bi = Some(part_of::<P>(g)); }
+        state.insert(bi);
     }
     Prepared { state, script, id, words, fb }
+}
+fn decoy() -> Individual<P> {
+    Individual::new(vec![-123.0], SingleObjective::try_from(-1e6).unwrap())
+}
+/// The decoys are as `prepare_id` made them.
+fn decoys_intact<I: Identifier>(state: &State<P>) -> bool {
+    if is_global::<I>() { return true; }
+    catch(|| {
+        **state.borrow::<ParticleVelocities<Global>>() == vec![vec![0.25], vec![-0.25], vec![0.5]]
+            && state.borrow::<BestParticles<P, Global>>().len() == 1
+            && state.borrow::<BestParticles<P, Global>>()[0] == decoy()
+            && state.borrow::<BestParticle<P, Global>>().as_ref() == Some(&decoy())
+            && state.get_value::<InertiaWeight<Pvu>>() == 77.0
+    }).unwrap_or(false)
 }
 fn status_of(r: Option<mahf::ExecResult<()>>) -> &'static str {
     match r { Some(Ok(())) => "ok", Some(Err(_)) => "err", None => "panic" }
 }
+fn status_id<I: Identifier>(r: Option<mahf::ExecResult<()>>, state: &State<P>) -> &'static str {
+    let s = status_of(r);
+    if s == "ok" && !decoys_intact::<I>(state) { "leak" } else { s }
+}
+/// Components take their identifier from `(id a)` (identifier `A`, with `Global` decoys) or default to `Global`.
+fn has_id_a(args: &[Sx]) -> bool {
+    has_field(args, "id") && field(args, "id")[0].atom() == Some("a")
+}
 
-/// `(vel (w x) (w0 x) (c1 x) (c2 x) (vmax x) (fb n) (words w*) (xs P*) (vs V*) (pbest P*) (gbest P|none))`
+/// `(vel (w x) (w0 x) (c1 x) (c2 x) (vmax x) (fb n) (words w*) (xs P*) (vs V*) (pbest P*) (gbest P|none) [(id a)])`
 fn run_vel(args: &[Sx]) -> String {
-    let mut pr = prepare(args);
+    if has_id_a(args) { run_vel_id::<A>(args) } else { run_vel_id::<Global>(args) }
+}
+fn run_vel_id<I: Identifier>(args: &[Sx]) -> String {
+    let mut pr = prepare_id::<I>(args);
     let problem = Sphere::new(1, -1.0, 1.0, 0.0);
-    let c = match Pvu::new::<P>(f1(args, "w0"), f1(args, "c1"), f1(args, "c2"), f1(args, "vmax")) {
+    let c = match ParticleVelocitiesUpdate::<I>::new_with_id::<P>(f1(args, "w0"), f1(args, "c1"), f1(args, "c2"), f1(args, "vmax")) {
         Ok(c) => c,
         Err(_) => return "(ctor-err)".into(),
     };
@@ -110,50 +157,63 @@ fn run_vel(args: &[Sx]) -> String {
     let used = pr.script.used();
     let d = stream_words(&pr.words, pr.fb, used).into_iter().map(|w| fx(unit_of_word(w)));
     let xs = catch(|| parts_s("xs", pr.state.populations().current())).unwrap_or("(xs-unreadable)".into());
-    let vs = catch(|| tagged("vs", pr.state.borrow::<ParticleVelocities<Global>>().iter().map(|v| vec_s(v)))).unwrap_or("(vs-unreadable)".into());
-    list([status_of(r).to_string(), tagged("d", d), xs, vs])
+    let vs = catch(|| tagged("vs", pr.state.borrow::<ParticleVelocities<I>>().iter().map(|v| vec_s(v)))).unwrap_or("(vs-unreadable)".into());
+    list([status_id::<I>(r, &pr.state).to_string(), tagged("d", d), xs, vs])
 }
 
-/// `(velinit (vmax x) (dim n) (fb n) (words w*) (xs P*))`
+/// `(velinit (vmax x) (dim n) (fb n) (words w*) (xs P*) [(id a)])`
 fn run_velinit(args: &[Sx]) -> String {
-    let mut pr = prepare(args);
+    if has_id_a(args) { run_velinit_id::<A>(args) } else { run_velinit_id::<Global>(args) }
+}
+fn run_velinit_id<I: Identifier>(args: &[Sx]) -> String {
+    let mut pr = prepare_id::<I>(args);
     let dim = field(args, "dim")[0].nat().unwrap() as usize;
     let problem = Sphere::new(dim, -1.0, 1.0, 0.0);
-    let c = match ParticleVelocitiesInit::<Global>::new::<P>(f1(args, "vmax")) {
+    let c = match ParticleVelocitiesInit::<I>::new::<P>(f1(args, "vmax")) {
         Ok(c) => c,
         Err(_) => return "(ctor-err)".into(),
     };
     let r = catch(|| { c.init(&problem, &mut pr.state)?; c.execute(&problem, &mut pr.state) });
     unregister(pr.id);
-    let vs = catch(|| tagged("vs", pr.state.borrow::<ParticleVelocities<Global>>().iter().map(|v| vec_s(v)))).unwrap_or("(vs-unreadable)".into());
-    list([status_of(r).to_string(), vs])
+    let vs = catch(|| tagged("vs", pr.state.borrow::<ParticleVelocities<I>>().iter().map(|v| vec_s(v)))).unwrap_or("(vs-unreadable)".into());
+    list([status_id::<I>(r, &pr.state).to_string(), vs])
 }
 
-/// `(pbest (op init|update) (xs P*) (pbest P*))`
+/// `(pbest (op init|update) (xs P*) (pbest P*) [(id a)])`
 fn run_pbest(args: &[Sx]) -> String {
-    let mut pr = prepare(args);
+    if has_id_a(args) { run_pbest_id::<A>(args) } else { run_pbest_id::<Global>(args) }
+}
+fn run_pbest_id<I: Identifier>(args: &[Sx]) -> String {
+    let mut pr = prepare_id::<I>(args);
     let problem = Sphere::new(1, -1.0, 1.0, 0.0);
-    let c: Box<dyn Component<P>> = if field(args, "op")[0].atom() == Some("init") { PersonalBestParticlesInit::<Global>::new() } else { PersonalBestParticlesUpdate::<Global>::new() };
+    let c: Box<dyn Component<P>> = if field(args, "op")[0].atom() == Some("init") { PersonalBestParticlesInit::<I>::new() } else { PersonalBestParticlesUpdate::<I>::new() };
     let r = catch(|| c.execute(&problem, &mut pr.state));
     unregister(pr.id);
-    let pb = catch(|| parts_s("pbest", &pr.state.borrow::<BestParticles<P, Global>>())).unwrap_or("(pbest-unreadable)".into());
-    list([status_of(r).to_string(), pb])
+    let pb = catch(|| parts_s("pbest", &pr.state.borrow::<BestParticles<P, I>>())).unwrap_or("(pbest-unreadable)".into());
+    list([status_id::<I>(r, &pr.state).to_string(), pb])
 }
 
 fn gbest_s(state: &State<P>) -> String {
-    match &**state.borrow::<BestParticle<P, Global>>() {
+    gbest_s_id::<Global>(state)
+}
+fn gbest_s_id<I: Identifier>(state: &State<P>) -> String {
+    match &**state.borrow::<BestParticle<P, I>>() {
         Some(g) => tagged("gbest", [part_s(g)]),
         None => "(gbest none)".into(),
     }
 }
-/// `(gbest (xs P*) (gbest P|none))`
+/// `(gbest (xs P*) (gbest P|none) [(bestind P|none)] [(id a)])`
 fn run_gbest(args: &[Sx]) -> String {
-    let mut pr = prepare(args);
+    if has_id_a(args) { run_gbest_id::<A>(args) } else { run_gbest_id::<Global>(args) }
+}
+fn run_gbest_id<I: Identifier>(args: &[Sx]) -> String {
+    let mut pr = prepare_id::<I>(args);
     let problem = Sphere::new(1, -1.0, 1.0, 0.0);
-    let c = GlobalBestParticleUpdate::<Global>::new::<P>();
+    let c = GlobalBestParticleUpdate::<I>::new::<P>();
     let r = catch(|| c.execute(&problem, &mut pr.state));
     unregister(pr.id);
-    list([status_of(r).to_string(), catch(|| gbest_s(&pr.state)).unwrap_or("(gbest-unreadable)".into())])
+    let st = status_id::<I>(r, &pr.state).to_string();
+    list([st, catch(|| gbest_s_id::<I>(&pr.state)).unwrap_or("(gbest-unreadable)".into())])
 }
 /// `(swarm (xs P*) (pbest P*) (gbest P))`: the `ParticleSwarmUpdate` block.
 fn run_swarm(args: &[Sx]) -> String {
@@ -164,6 +224,24 @@ fn run_swarm(args: &[Sx]) -> String {
     unregister(pr.id);
     let pb = catch(|| parts_s("pbest", &pr.state.borrow::<BestParticles<P, Global>>())).unwrap_or("(pbest-unreadable)".into());
     list([status_of(r).to_string(), pb, catch(|| gbest_s(&pr.state)).unwrap_or("(gbest-unreadable)".into())])
+}
+
+/// `(swarminit (vmax x) (dim n) (fb n) (words w*) (xs P*) [(gbest P)])`: the `ParticleSwarmInit` block (`init`, then
+/// `execute`) — on a fresh state, or on one that still holds the `BestParticle` of an earlier swarm (second phase of a
+/// two-phase heuristic, re-initialisation): `GlobalBestParticleUpdate::init` only inserts when there is none.
+fn run_swarminit(args: &[Sx]) -> String {
+    let mut pr = prepare(args);
+    let dim = field(args, "dim")[0].nat().unwrap() as usize;
+    let problem = Sphere::new(dim, -1.0, 1.0, 0.0);
+    let c = match ParticleSwarmInit::<Global>::new::<P>(f1(args, "vmax")) {
+        Ok(c) => c,
+        Err(_) => return "(ctor-err)".into(),
+    };
+    let r = catch(|| { c.init(&problem, &mut pr.state)?; c.execute(&problem, &mut pr.state) });
+    unregister(pr.id);
+    let vs = catch(|| tagged("vs", pr.state.borrow::<ParticleVelocities<Global>>().iter().map(|v| vec_s(v)))).unwrap_or("(vs-unreadable)".into());
+    let pb = catch(|| parts_s("pbest", &pr.state.borrow::<BestParticles<P, Global>>())).unwrap_or("(pbest-unreadable)".into());
+    list([status_of(r).to_string(), vs, pb, catch(|| gbest_s(&pr.state)).unwrap_or("(gbest-unreadable)".into())])
 }
 
 /// `(linear (start x) (end x) (progress x) (w x))`
@@ -196,6 +274,17 @@ struct PsoVisitor {
     vel_before: Option<(String, usize)>,
     pb_before: Option<Vec<f64>>,
     hist: Vec<f64>,
+    /// `runx`: also report the loop condition's side effects at every pass boundary and the weight
+    /// every velocity update reads
+    ext: bool,
+}
+/// `(tag iterations evaluations Progress<Iterations> Progress<Evaluations>)`; a missing state is `x`.
+fn loop_obs<Q: HProblem>(tag: &str, state: &State<Q>) -> String {
+    let it = state.try_borrow::<Iterations>().map(|i| i.0.to_string()).unwrap_or("x".into());
+    let ev = state.try_borrow::<Evaluations>().map(|i| i.0.to_string()).unwrap_or("x".into());
+    let pi = state.try_borrow::<Progress<ValueOf<Iterations>>>().map(|p| fx(p.0)).unwrap_or("x".into());
+    let pe = state.try_borrow::<Progress<ValueOf<Evaluations>>>().map(|p| fx(p.0)).unwrap_or("x".into());
+    list([tag.to_string(), it, ev, pi, pe])
 }
 impl Visitor for PsoVisitor {
     fn step<Q: HProblem>(&mut self, phase: Phase, name: &'static str, _index: usize, state: &State<Q>, problem: &Q) {
@@ -217,6 +306,17 @@ impl Visitor for PsoVisitor {
         let lens = |tag: &str| list(["len".into(), tag.into(), pops.get_current().map(|c| c.len()).unwrap_or(0).to_string(),
             vs.as_ref().map(|v| v.len().to_string()).unwrap_or("x".into()), pb.as_ref().map(|v| v.len().to_string()).unwrap_or("x".into())]);
         if name == "mahf::verif::LoopPass" {
+            if self.ext && phase == Phase::Before { self.steps.push(loop_obs("passx", state)); }
+            // "the global best equals the best personal best" — at the pass boundaries, so that the order of the
+            // two best updates inside `ParticleSwarmUpdate` / `ParticleSwarmInit` does not matter
+            if let (Some(pb), Some(gb)) = (pb.as_ref(), gb.as_ref()) {
+                let pbo: Vec<f64> = pb.iter().map(|i| i.objective().value()).collect();
+                let (g, member) = match &***gb {
+                    Some(g) => (fx(g.objective().value()), pb.iter().any(|i| i == g)),
+                    None => ("none".into(), false),
+                };
+                self.steps.push(list(["inv".into(), g, vec_s(&pbo), b(member)]));
+            }
             self.steps.push(lens(if phase == Phase::Before { "pass" } else { "pass-end" }));
             return;
         }
@@ -236,6 +336,7 @@ impl Visitor for PsoVisitor {
                     tagged("xs", pops.current().iter().map(&p_s)), tagged("vs", vs.iter().map(|v| vec_s(v))),
                     tagged("pbest", pb.iter().map(&p_s)), match &***gb { Some(g) => tagged("gbest", [p_s(g)]), None => "(gbest none)".into() });
                 self.vel_before = Some((pre, used));
+                if self.ext { self.steps.push(list(["wuse".into(), state.iterations().to_string(), fx(w)])); }
             }
             ("vel", Phase::After) => {
                 if let (Some((pre, used0)), Some(vs)) = (self.vel_before.take(), vs.as_ref()) {
@@ -280,17 +381,7 @@ impl Visitor for PsoVisitor {
                 }
                 self.steps.push(lens("pb"));
             }
-            ("gb", Phase::After) => {
-                if let (Some(pb), Some(gb)) = (pb.as_ref(), gb.as_ref()) {
-                    let pbo: Vec<f64> = pb.iter().map(|i| i.objective().value()).collect();
-                    let (g, member) = match &***gb {
-                        Some(g) => (fx(g.objective().value()), pb.iter().any(|i| i == g)),
-                        None => ("none".into(), false),
-                    };
-                    self.steps.push(list(["gb".into(), g, vec_s(&pbo), b(member)]));
-                }
-                self.steps.push(lens("gb"));
-            }
+            ("gb", Phase::After) => self.steps.push(lens("gb")),
             _ => {}
         }
     }
@@ -315,7 +406,7 @@ fn run_run(args: &[Sx]) -> (String, Vec<(String, String)>) {
     let vis = PsoVisitor {
         steps: vec![], vel_cases: vec![], swapped: false, fb: seed, script: None, id: 0, shadow: Sm::new(seed), shadow_pos: 0,
         c1: f1(args, "c1"), c2: f1(args, "c2"), vmax: f1(args, "vmax"), w0: f1(args, "start"), n_iter: iters,
-        vel_before: None, pb_before: None, hist: vec![],
+        vel_before: None, pb_before: None, hist: vec![], ext: false,
     };
     match run_template("real_pso", v, i, iters, seed, EvalKind::Sequential, vis) {
         Ok((vis, outcome)) => (list([outcome.tag().to_string(), tagged("steps", vis.steps)]), vis.vel_cases),
@@ -323,30 +414,95 @@ fn run_run(args: &[Sx]) -> (String, Vec<(String, String)>) {
     }
 }
 
+/// The real condition for `(lti n) | (lte k) | (not C) | (and C C) | (or C C) | (andn C*) | (orn C*)`.
+fn build_cond(sx: &Sx) -> Box<dyn mahf::Condition<Sphere>> {
+    use mahf::conditions::{And, LessThanN, Or};
+    let (h, a) = sx.head().expect("condition");
+    match h {
+        "lti" => LessThanN::iterations(a[0].nat().unwrap() as u32),
+        "lte" => LessThanN::evaluations(a[0].nat().unwrap() as u32),
+        "not" => !build_cond(&a[0]),
+        "and" => build_cond(&a[0]) & build_cond(&a[1]),
+        "or" => build_cond(&a[0]) | build_cond(&a[1]),
+        "andn" => And::new(a.iter().map(build_cond)),
+        "orn" => Or::new(a.iter().map(build_cond)),
+        _ => panic!("unknown condition {h}"),
+    }
+}
+/// The bound of the `LessThanN::iterations` that is evaluated last (the generated formulas use one bound only).
+fn first_lti(sx: &Sx) -> Option<u32> {
+    let (h, a) = sx.head()?;
+    if h == "lti" { return a[0].nat().map(|n| n as u32); }
+    a.iter().rev().find_map(first_lti)
+}
+
 /// `(runc (np n) (dim d) (iters n) (seed s) (start x) (end x) (c1 x) (c2 x) (vmax x))`: `real_pso` built directly
 /// with parameters the shared template table does not contain (inertia weights above 1, increasing
 /// schedules, zero acceleration coefficients), run the same way `run_template` does.
-fn run_custom(args: &[Sx]) -> (String, Vec<(String, String)>) {
+///
+/// `(runx (np n) (dim d) (seed s) (start x) (end x) (c1 x) (c2 x) (vmax x) (inertia 0|1) (pre k) (clear 0|1) (cond C))`:
+/// the same layout as `real_pso`, built from the public `pso::pso` template, with
+/// * an arbitrary termination condition `C` (composites of iteration and evaluation bounds),
+/// * optionally no inertia-weight update (`inertia 0`),
+/// * optionally a sampling phase before the swarm exists (`pre k` > 0: `RandomSpread(k)`, evaluate,
+///   `update_best_individual`, then `ClearPopulation` when `clear 1`), so that `common::BestIndividual`
+///   holds a solution no particle was ever evaluated at.
+fn run_custom(args: &[Sx], ext: bool) -> (String, Vec<(String, String)>) {
+    use mahf::components::{boundary, initialization, utils::populations::ClearPopulation};
     use mahf::conditions::LessThanN;
     use mahf::heuristics::pso;
     use mahf::problems::Sequential;
     use mahf::verif::StepObserver;
+    use mahf::Configuration;
     use std::sync::{Arc, Mutex};
     let np = field(args, "np")[0].nat().unwrap() as u32;
     let dim = field(args, "dim")[0].nat().unwrap() as usize;
-    let iters = field(args, "iters")[0].nat().unwrap() as u32;
     let seed = field(args, "seed")[0].nat().unwrap();
     let problem = Sphere::new(dim, -3.0, 4.0, 0.5);
-    let cfg = match pso::real_pso::<Sphere>(pso::RealProblemParameters {
-        num_particles: np, start_weight: f1(args, "start"), end_weight: f1(args, "end"),
-        c_one: f1(args, "c1"), c_two: f1(args, "c2"), v_max: f1(args, "vmax") }, LessThanN::iterations(iters)) {
+    let (start, end, c1, c2, vmax) = (f1(args, "start"), f1(args, "end"), f1(args, "c1"), f1(args, "c2"), f1(args, "vmax"));
+    let iters;
+    let built: mahf::ExecResult<Configuration<Sphere>> = if !ext {
+        iters = field(args, "iters")[0].nat().unwrap() as u32;
+        pso::real_pso::<Sphere>(pso::RealProblemParameters {
+            num_particles: np, start_weight: start, end_weight: end, c_one: c1, c_two: c2, v_max: vmax }, LessThanN::iterations(iters))
+    } else {
+        let cond = &field(args, "cond")[0];
+        iters = first_lti(cond).unwrap_or(0);
+        let pre = field(args, "pre")[0].nat().unwrap() as u32;
+        let clear = field(args, "clear")[0].nat().unwrap() == 1;
+        let inertia = field(args, "inertia")[0].nat().unwrap() == 1;
+        (|| {
+            let mut b = Configuration::builder();
+            if pre > 0 {
+                b = b.do_(initialization::RandomSpread::new(pre)).evaluate().update_best_individual();
+                if clear { b = b.do_(ClearPopulation::new()); }
+            }
+            if inertia {
+                // the shipped template itself, as the last phase
+                return Ok(b.do_(pso::real_pso::<Sphere>(pso::RealProblemParameters {
+                    num_particles: np, start_weight: start, end_weight: end, c_one: c1, c_two: c2, v_max: vmax }, build_cond(cond))?.into_inner()).build());
+            }
+            Ok(b.do_(initialization::RandomSpread::new(np))
+                .evaluate()
+                .update_best_individual()
+                .do_(pso::pso::<Sphere, Global>(pso::Parameters {
+                    particle_init: ParticleSwarmInit::new(vmax)?,
+                    particle_update: Pvu::new(start, c1, c2, vmax)?,
+                    constraints: boundary::Saturation::new(),
+                    inertia_weight_update: None,
+                    state_update: ParticleSwarmUpdate::new(),
+                }, build_cond(cond)))
+                .build())
+        })()
+    };
+    let cfg = match built {
         Ok(c) => c,
         Err(_) => return ("(ctor-err (steps))".into(), vec![]),
     };
     let vis = Arc::new(Mutex::new(PsoVisitor {
         steps: vec![], vel_cases: vec![], swapped: false, fb: seed, script: None, id: 0, shadow: Sm::new(seed), shadow_pos: 0,
-        c1: f1(args, "c1"), c2: f1(args, "c2"), vmax: f1(args, "vmax"), w0: f1(args, "start"), n_iter: iters,
-        vel_before: None, pb_before: None, hist: vec![],
+        c1, c2, vmax, w0: start, n_iter: iters,
+        vel_before: None, pb_before: None, hist: vec![], ext,
     }));
     let (v2, p2) = (vis.clone(), problem.clone());
     let r = catch(|| cfg.optimize_with(&problem, |state: &mut State<Sphere>| {
@@ -358,10 +514,13 @@ fn run_custom(args: &[Sx]) -> (String, Vec<(String, String)>) {
         Ok(())
     }));
     let tag = match &r { None => "panic", Some(Err(_)) => "err", Some(Ok(_)) => "ok" };
+    let exit = match &r { Some(Ok(state)) if ext => Some(loop_obs("exitx", state)), _ => None };
     drop(r);
     let mut g = vis.lock().unwrap_or_else(|e| e.into_inner());
     if g.swapped { unregister(g.id); }
-    (list([tag.to_string(), tagged("steps", std::mem::take(&mut g.steps))]), std::mem::take(&mut g.vel_cases))
+    let mut steps = std::mem::take(&mut g.steps);
+    steps.extend(exit);
+    (list([tag.to_string(), tagged("steps", steps)]), std::mem::take(&mut g.vel_cases))
 }
 
 fn run_case(input: &Sx) -> String {
@@ -372,9 +531,11 @@ fn run_case(input: &Sx) -> String {
         "pbest" => run_pbest(args),
         "gbest" => run_gbest(args),
         "swarm" => run_swarm(args),
+        "swarminit" => run_swarminit(args),
         "linear" => run_linear(args),
         "run" => run_run(args).0,
-        "runc" => run_custom(args).0,
+        "runc" => run_custom(args, false).0,
+        "runx" => run_custom(args, true).0,
         _ => panic!("unknown case kind {kind}"),
     }
 }
@@ -418,6 +579,32 @@ impl Gen {
     }
     fn vmax(&mut self) -> f64 {
         *self.rng.pick(&[1e-3, 1e-2, 0.1, 1.0, 3.0, 10.0])
+    }
+}
+
+/// A random termination formula without `not` in negative position (so it eventually turns false), with
+/// iteration bound `n` in at least one — arbitrary — place.
+fn rand_formula(g: &mut Gen, n: u64, depth: u32) -> String {
+    fn pos(g: &mut Gen, n: u64, depth: u32) -> String {
+        if depth == 0 || g.rng.chance(1, 4) {
+            return if g.rng.chance(1, 2) { format!("(lti {n})") } else { format!("(lte {})", g.rng.range(5, 120)) };
+        }
+        match g.rng.below(6) {
+            0 => format!("(and {} {})", pos(g, n, depth - 1), pos(g, n, depth - 1)),
+            1 => format!("(or {} {})", pos(g, n, depth - 1), pos(g, n, depth - 1)),
+            2 => format!("(andn {} {} {})", pos(g, n, depth - 1), pos(g, n, depth - 1), pos(g, n, depth - 1)),
+            3 => format!("(orn {} {} {})", pos(g, n, depth - 1), pos(g, n, depth - 1), pos(g, n, depth - 1)),
+            4 => format!("(not (not {}))", pos(g, n, depth - 1)),
+            _ => format!("(orn {})", pos(g, n, depth - 1)),
+        }
+    }
+    let f = pos(g, n, depth);
+    if f.contains("(lti") { return f; }
+    match g.rng.below(4) {
+        0 => format!("(or {f} (lti {n}))"),
+        1 => format!("(or (lti {n}) {f})"),
+        2 => format!("(and {f} (lti {n}))"),
+        _ => format!("(and (lti {n}) {f})"),
     }
 }
 
@@ -469,8 +656,14 @@ fn main() {
         let sx = Sx::parse(&input).unwrap();
         out.case(site, &input, &run_case(&sx));
     };
+    // the same case under identifier `A` next to decoy `Global` swarm state
+    let with_id = |input: &str| format!("{} (id a))", &input[..input.len() - 1]);
     let reps = if a.thorough { 3000 } else { 400 };
-    for k in 0..reps { emit("vel", vel_case(&mut g, 0, if k % 4 == 1 { 1 } else if k % 4 == 3 { 2 } else { 0 })); }
+    for k in 0..reps {
+        let c = vel_case(&mut g, 0, if k % 4 == 1 { 1 } else if k % 4 == 3 { 2 } else { 0 });
+        if k % 5 == 2 { emit("vel-id", with_id(&c)); }
+        emit("vel", c);
+    }
     for k in 0..(if a.thorough { 400 } else { 80 }) { emit("vel-malformed", vel_case(&mut g, 1 + k % 8, 0)); }
     for _ in 0..(if a.thorough { 1000 } else { 150 }) {
         let n = g.rng.range(0, 10) as usize;
@@ -478,12 +671,14 @@ fn main() {
         let xs: Vec<String> = (0..n).map(|_| g.part(dim, true)).collect();
         let vmax = if g.rng.chance(1, 20) { *g.rng.pick(&[0.0, -1.0]) } else { g.vmax() };
         let nw = g.rng.below(8) as usize;
-        emit("velinit", format!("(velinit (vmax {}) (dim {}) (fb {}) {} {})", fx(vmax), dim, g.rng.below(1000),
-            tagged("words", g.words(nw).iter().map(|w| w.to_string())), tagged("xs", xs)));
+        let c = format!("(velinit (vmax {}) (dim {}) (fb {}) {} {})", fx(vmax), dim, g.rng.below(1000),
+            tagged("words", g.words(nw).iter().map(|w| w.to_string())), tagged("xs", xs));
+        if g.rng.chance(1, 5) { emit("velinit-id", with_id(&c)); }
+        emit("velinit", c);
     }
     // personal bests: objective values from a small set so that ties and strict improvements both occur
     // ... and improvements as small as one ulp / far below machine epsilon in absolute value
-    let objs = [0.0, 0.5, 1.0, 1.0, 2.0, 3.5, -1.0, 1e-9, 1e9, 1.0 + f64::EPSILON, 1e-17, 3e-17, 5e-324];
+    let objs = [0.0, 0.5, 1.0, 1.0, 2.0, 3.5, -1.0, 1e-9, 1e9, 1.0 + f64::EPSILON, 1e-17, 3e-17, 5e-324, f64::INFINITY, f64::INFINITY];
     for k in 0..(if a.thorough { 2000 } else { 300 }) {
         let n = g.rng.range(0, 10) as usize;
         let dim = g.rng.range(1, 5) as usize;
@@ -492,7 +687,9 @@ fn main() {
         let xs: Vec<String> = (0..n).map(|_| if uneval && g.rng.chance(1, 3) { g.part(dim, false) } else { let o = *g.rng.pick(&objs); g.part_obj(dim, o) }).collect();
         let pb: Vec<String> = (0..npb).map(|_| { let o = *g.rng.pick(&objs); g.part_obj(dim, o) }).collect();
         let op = if k % 7 == 0 { "init" } else { "update" };
-        emit(&format!("pbest-{op}"), format!("(pbest (op {}) {} {})", op, tagged("xs", xs), tagged("pbest", pb)));
+        let c = format!("(pbest (op {}) {} {})", op, tagged("xs", xs), tagged("pbest", pb));
+        if k % 5 == 1 { emit(&format!("pbest-{op}-id"), with_id(&c)); }
+        emit(&format!("pbest-{op}"), c);
     }
     for k in 0..(if a.thorough { 2000 } else { 300 }) {
         let n = g.rng.range(0, 10) as usize;
@@ -500,10 +697,19 @@ fn main() {
         let uneval = k % 13 == 5;
         let xs: Vec<String> = (0..n).map(|_| if uneval && g.rng.chance(1, 3) { g.part(dim, false) } else { let o = *g.rng.pick(&objs); g.part_obj(dim, o) }).collect();
         let gb = if k % 5 == 0 { "none".to_string() } else { let o = *g.rng.pick(&objs); g.part_obj(dim, o) };
-        emit("gbest", format!("(gbest {} (gbest {}))", tagged("xs", xs), gb));
+        // the heuristic-wide `BestIndividual`: absent / empty / better than everything / anything
+        let bi = match k % 4 {
+            0 => String::new(),
+            1 => " (bestind none)".to_string(),
+            2 => format!(" (bestind {})", g.part_obj(dim, -7.0)),
+            _ => { let o = *g.rng.pick(&objs); format!(" (bestind {})", g.part_obj(dim, o)) }
+        };
+        let c = format!("(gbest {} (gbest {}){})", tagged("xs", xs), gb, bi);
+        if k % 5 == 3 { emit("gbest-id", with_id(&c)); }
+        emit(if bi.is_empty() { "gbest" } else { "gbest-hybrid" }, c);
     }
     // swarm invariant: personal bests with their minimum as global best, then the update block
-    for _ in 0..(if a.thorough { 2000 } else { 300 }) {
+    for k in 0..(if a.thorough { 2000 } else { 300 }) {
         let n = g.rng.range(1, 10) as usize;
         let dim = g.rng.range(1, 5) as usize;
         let pbo: Vec<f64> = (0..n).map(|_| *g.rng.pick(&objs)).collect();
@@ -511,7 +717,27 @@ fn main() {
         let mut first_min = 0;
         for (k, o) in pbo.iter().enumerate() { if *o < pbo[first_min] { first_min = k; } }
         let xs: Vec<String> = (0..n).map(|_| { let o = *g.rng.pick(&objs); g.part_obj(dim, o) }).collect();
-        emit("swarm", format!("(swarm {} {} (gbest {}))", tagged("xs", xs), tagged("pbest", pb.clone()), pb[first_min]));
+        let bi = match k % 3 {
+            0 => String::new(),
+            1 => format!(" (bestind {})", g.part_obj(dim, -7.0)),
+            _ => { let o = *g.rng.pick(&objs); format!(" (bestind {})", g.part_obj(dim, o)) }
+        };
+        emit(if bi.is_empty() { "swarm" } else { "swarm-hybrid" }, format!("(swarm {} {} (gbest {}){})", tagged("xs", xs), tagged("pbest", pb.clone()), pb[first_min], bi));
+    }
+    // the initialisation block: on a fresh state, and on a state that still holds an earlier swarm's global best
+    for k in 0..(if a.thorough { 600 } else { 120 }) {
+        let n = g.rng.range(1, 8) as usize;
+        let dim = g.rng.range(1, 4) as usize;
+        let xo: Vec<f64> = (0..n).map(|_| *g.rng.pick(&objs)).collect();
+        let xs: Vec<String> = xo.iter().map(|o| g.part_obj(dim, *o)).collect();
+        let min = xo.iter().cloned().fold(f64::INFINITY, f64::min);
+        // stale global best: worse than the new swarm's best (it is replaced) or at least as good (it stays)
+        let (site, gb) = match k % 3 {
+            0 => ("swarminit", String::new()),
+            1 => (if min < min + 1.0 { "swarminit" } else { "swarminit-stale" }, format!(" (gbest {})", g.part_obj(dim, min + 1.0))),
+            _ => { let o = if g.rng.chance(1, 2) { min } else { min - 1.0 }; ("swarminit-stale", format!(" (gbest {})", g.part_obj(dim, o))) }
+        };
+        emit(site, format!("(swarminit (vmax {}) (dim {}) (fb {}) (words) {}{})", fx(g.vmax()), dim, g.rng.below(1000), tagged("xs", xs), gb));
     }
     for _ in 0..(if a.thorough { 1000 } else { 200 }) {
         let start = *g.rng.pick(&[0.9, 0.5, 0.0, 1.0, 0.4]);
@@ -553,10 +779,49 @@ fn main() {
                 c.0, c.1, if a.thorough { 100 } else { 30 }, a.seed * 100 + 50 + s + 10 * k as u64, fx(c.2), fx(c.3), fx(c.4), fx(c.5), fx(c.6));
             let sx = Sx::parse(&input).unwrap();
             let (_, args) = sx.head().unwrap();
-            let (output, vel_cases) = run_custom(args);
+            let (output, vel_cases) = run_custom(args, false);
             out.case("run", &input, &output);
             for (vi, vo) in vel_cases {
                 out.case("run-vel", &vi, &vo);
+            }
+        }
+    }
+    // composite termination conditions, hybrid prefixes, no inertia-weight update (`pso::pso` built directly)
+    let runx: [(&str, u64, u64, u64, u64, u64, usize); 14] = [
+        // cond, np, dim, inertia, pre, clear, parameter point
+        ("(or (lte 30) (lti 10))", 5, 3, 1, 0, 0, 0),
+        ("(or (lti 8) (lte 60))", 4, 2, 1, 0, 0, 2),
+        ("(and (lte 200) (lti 12))", 3, 2, 1, 0, 0, 0),
+        ("(and (lti 12) (lte 40))", 4, 1, 1, 0, 0, 1),
+        ("(not (not (lti 9)))", 3, 2, 1, 0, 0, 0),
+        ("(andn (lti 10) (lte 500) (not (lte 3)))", 4, 2, 1, 0, 0, 2),
+        ("(orn (lte 20) (lte 25) (lti 6))", 2, 3, 1, 0, 0, 0),
+        ("(or (lti 10) (and (lte 30) (lti 10)))", 3, 2, 1, 0, 0, 1),
+        ("(lti 15)", 4, 2, 1, 200, 1, 0),
+        ("(or (lte 400) (lti 10))", 3, 3, 1, 300, 0, 2),
+        ("(lti 12)", 4, 2, 0, 0, 0, 0),
+        ("(and (lte 1000) (lti 10))", 5, 2, 0, 100, 1, 1),
+        ("(or (lte 12) (lti 20))", 1, 2, 1, 50, 1, 0),
+        ("(lti 0)", 3, 2, 1, 0, 0, 0),
+    ];
+    let mut runx: Vec<(String, u64, u64, u64, u64, u64, usize)> = runx.iter().map(|c| (c.0.to_string(), c.1, c.2, c.3, c.4, c.5, c.6)).collect();
+    for k in 0..(if a.thorough { 40 } else { 5 }) {
+        let n = g.rng.range(3, 14);
+        let f = rand_formula(&mut g, n, 3);
+        let pre = if k % 3 == 0 { g.rng.range(20, 150) } else { 0 };
+        runx.push((f, g.rng.range(1, 6), g.rng.range(1, 3), if k % 4 == 3 { 0 } else { 1 }, pre, g.rng.below(2), g.rng.below(3) as usize));
+    }
+    for (k, c) in runx.iter().enumerate() {
+        for s in 0..(if a.thorough && k < 14 { 4 } else { 1 }) {
+            let v = c.6;
+            let input = format!("(runx (np {}) (dim {}) (seed {}) (start {}) (end {}) (c1 {}) (c2 {}) (vmax {}) (inertia {}) (pre {}) (clear {}) (cond {}))",
+                c.1, c.2, a.seed * 100 + 70 + s + 10 * k as u64, fx(START_W[v]), fx(END_W[v]), fx(C1[v]), fx(C2[v]), fx(VMAX[v]), c.3, c.4, c.5, c.0);
+            let sx = Sx::parse(&input).unwrap();
+            let (_, args) = sx.head().unwrap();
+            let (output, vel_cases) = run_custom(args, true);
+            out.case("runx", &input, &output);
+            for (vi, vo) in vel_cases {
+                out.case("runx-vel", &vi, &vo);
             }
         }
     }
